@@ -67,6 +67,11 @@ Definition handler_has_rows (h : string) : bool :=
 Definition api_mounts : list (string * string) :=
   filter (fun m => prefix "/galene-api" (fst m)) mounts.
 
+Definition updates_atomic : bool :=
+  forallb snd update_functions &&
+  forallb (fun n => existsb (fun u => String.eqb n (fst u)) update_functions)
+    ["UpdateDescription"; "DeleteDescription"; "UpdateUser"; "DeleteUser"; "SetUserPassword"; "SetKeys"].
+
 Definition table_ok : bool :=
   forallb route_ok routes && forallb cors_ok routes &&
   forallb handler_has_rows handlers &&
@@ -82,7 +87,11 @@ Definition table_ok : bool :=
       String.eqb c1 "checkAdmin" && String.eqb a1 """""" &&
       String.eqb c2 "checkAdminOrExplicitPassword" && String.eqb a2 "user"
   | _ => false
-  end.
+  end &&
+  (* every function of description.go that rewrites or removes a group file
+     does its whole read-modify-write under the description lock: the
+     requests are atomic steps, as the model takes them *)
+  updates_atomic.
 
 Lemma table_ok_true : table_ok = true.
 Proof. vm_compute. reflexivity. Qed.
@@ -91,6 +100,7 @@ Lemma routes_ok : forall r, In r routes -> route_ok r = true /\ cors_ok r = true
 Proof.
   intros r Hr.
   pose proof table_ok_true as T. unfold table_ok in T.
+  apply andb_prop in T; destruct T as [T _].
   apply andb_prop in T; destruct T as [T _].
   apply andb_prop in T; destruct T as [T _].
   apply andb_prop in T; destruct T as [T _].
@@ -116,6 +126,16 @@ Proof.
   all: try (right; right; right; split; [reflexivity|];
             apply andb_prop in H; destruct H as [H1 H2];
             split; [exact H2|]; apply String.eqb_eq in H1; auto).
+Qed.
+
+Lemma updates_atomic_true : updates_atomic = true.
+Proof. vm_compute. reflexivity. Qed.
+
+Lemma update_functions_locked : forall n l, In (n, l) update_functions -> l = true.
+Proof.
+  intros n l Hin. pose proof updates_atomic_true as T. unfold updates_atomic in T.
+  apply andb_prop in T. destruct T as [T _].
+  exact (proj1 (forallb_forall snd update_functions) T (n, l) Hin).
 Qed.
 
 Lemma routes_nonempty : (10 <= List.length routes)%nat.
